@@ -130,15 +130,10 @@ func DecodeRequest(frame []byte, decomp Decompressor) (*Request, error) {
 	return req, nil
 }
 
-// preparedID reads a non-empty [short bytes] prepared statement id.
+// preparedID reads a [short bytes] prepared statement id. The specification does not
+// require it to be non-empty; whether the id is one the node issued is the scenarios' check.
 func (r *reader) preparedID(what string) []byte {
-	start := r.off
-	id := r.shortBytes(what)
-	if r.err == nil && len(id) == 0 {
-		r.off = start
-		r.failf(what, "empty prepared statement id")
-	}
-	return id
+	return r.shortBytes(what)
 }
 
 // values reads <short n> followed by n x ([string name] [value]).
